@@ -1,6 +1,7 @@
 //! C09 correspondence: the regex-validated newtypes (`LayerName`, `ProcessType`, `BuildpackId`, `ExecDProgramOutputKey`) and
-//! `BuildpackVersion` / `BuildpackApi` of /repo/libcnb-data on generated strings, through three paths:
-//! `str::parse` / `TryFrom<String>`, TOML deserialisation (`toml::from_str` of a one-field struct) and — thorough tier — the
+//! `BuildpackVersion` / `BuildpackApi` of /repo/libcnb-data on generated strings, through six paths:
+//! `str::parse` / `TryFrom<String>`, deserialisation (`toml::from_str` of a one-field struct in the toml crate's spelling and in an
+//! all-escapes spelling, `serde_json::from_str` of a JSON string, a TOML table key) and — thorough tier — the
 //! compile-time literal macros (a scratch crate depending on /repo/libcnb-data by path, `cargo check --message-format=json`).
 //!
 //! Case fields: `<kind> <string as hex code points joined by ','; '-' = empty> <extra; '-' when unused>` (see Driver/C09.lean).
@@ -21,7 +22,7 @@ fn uncps(s: &str, sep: &str) -> Option<String> {
     split_list(s, sep).iter().map(|t| u32::from_str_radix(t, 16).ok().and_then(char::from_u32)).collect()
 }
 
-// ------------------------------------------------------------------------------------------------ the three paths
+// ------------------------------------------------------------------------------------------------ the entry paths
 #[derive(Deserialize)]
 struct Holder<T> { v: T }
 #[derive(Serialize)]
@@ -33,9 +34,66 @@ fn toml_doc(s: &str) -> Option<String> {
     let doc = toml::to_string(&HolderStr { v: s }).ok()?;
     match toml::from_str::<Holder<String>>(&doc) { Ok(h) if h.v == s => Some(doc), _ => None }
 }
-fn toml_de<T: DeserializeOwned>(s: &str) -> Result<Option<T>, ()> {
-    let doc = toml_doc(s).ok_or(())?;
-    Ok(toml::from_str::<Holder<T>>(&doc).ok().map(|h| h.v))
+/// the same document with every character of the string written as a `\uXXXX` / `\UXXXXXXXX` escape (the parser then
+/// hands an owned, unescaped string to the visitor instead of a slice of the input)
+fn toml_doc_escaped(s: &str) -> Option<String> {
+    let mut doc = String::from("v = \"");
+    for c in s.chars() { let n = c as u32; if n <= 0xffff { doc.push_str(&format!("\\u{n:04X}")); } else { doc.push_str(&format!("\\U{n:08X}")); } }
+    doc.push_str("\"\n");
+    match toml::from_str::<Holder<String>>(&doc) { Ok(h) if h.v == s => Some(doc), _ => None }
+}
+/// keys of a table, in document order, each read through `T`'s `Deserialize` (the map-key deserialiser of the toml crate)
+struct Keys<T>(Vec<T>);
+impl<'de, T: Deserialize<'de>> Deserialize<'de> for Keys<T> {
+    fn deserialize<D: serde::Deserializer<'de>>(d: D) -> Result<Self, D::Error> {
+        struct Vis<T>(std::marker::PhantomData<T>);
+        impl<'de, T: Deserialize<'de>> serde::de::Visitor<'de> for Vis<T> {
+            type Value = Keys<T>;
+            fn expecting(&self, f: &mut std::fmt::Formatter) -> std::fmt::Result { f.write_str("a table") }
+            fn visit_map<A: serde::de::MapAccess<'de>>(self, mut m: A) -> Result<Keys<T>, A::Error> {
+                let mut out = vec![];
+                while let Some(k) = m.next_key::<T>()? { let _: serde::de::IgnoredAny = m.next_value()?; out.push(k); }
+                Ok(Keys(out))
+            }
+        }
+        d.deserialize_map(Vis(std::marker::PhantomData))
+    }
+}
+/// `[v]` table with the string as its only (quoted) key
+fn toml_doc_key(s: &str) -> Option<String> {
+    let mut k = String::from("\"");
+    for c in s.chars() {
+        match c {
+            '"' => k.push_str("\\\""), '\\' => k.push_str("\\\\"),
+            c if (c as u32) < 0x20 || c as u32 == 0x7f => k.push_str(&format!("\\u{:04X}", c as u32)),
+            c => k.push(c),
+        }
+    }
+    k.push('"');
+    let doc = format!("[v]\n{k} = 1\n");
+    match toml::from_str::<Holder<Keys<String>>>(&doc) { Ok(h) if h.v.0.len() == 1 && h.v.0[0] == s => Some(doc), _ => None }
+}
+fn json_doc(s: &str) -> Option<String> {
+    let doc = serde_json::to_string(s).ok()?;
+    match serde_json::from_str::<String>(&doc) { Ok(x) if x == s => Some(doc), _ => None }
+}
+
+/// the deserialisation paths: `t` TOML value as the toml crate spells it, `u` TOML value spelled with escapes only,
+/// `j` JSON string, `k` TOML table key. `Err(())`: the carrier text could not be produced for this string.
+fn de_paths<T: DeserializeOwned>(s: &str) -> Vec<Result<Option<T>, ()>> {
+    vec![
+        toml_doc(s).ok_or(()).map(|doc| toml::from_str::<Holder<T>>(&doc).ok().map(|h| h.v)),
+        toml_doc_escaped(s).ok_or(()).map(|doc| toml::from_str::<Holder<T>>(&doc).ok().map(|h| h.v)),
+        json_doc(s).ok_or(()).map(|doc| serde_json::from_str::<T>(&doc).ok()),
+        toml_doc_key(s).ok_or(()).map(|doc| toml::from_str::<Holder<Keys<T>>>(&doc).ok().and_then(|h| { let mut v = h.v.0; if v.len() == 1 { v.pop() } else { None } })),
+    ]
+}
+/// names of the paths in the observation: `p` = run-time parsing (`str::parse` / `TryFrom<String>`), then `de_paths`
+const PATHS: &[&str] = &["p", "t", "u", "j", "k"];
+fn all_paths<T: DeserializeOwned>(s: &str, direct: Option<T>, show: &dyn Fn(Option<T>) -> String) -> Vec<String> {
+    let mut out = vec![show(direct)];
+    for r in de_paths::<T>(s) { out.push(match r { Ok(v) => show(v), Err(()) => "carrier-text".into() }); }
+    out
 }
 
 fn ident_result<T: Display + Serialize>(v: Option<T>) -> String {
@@ -47,11 +105,7 @@ fn ident_result<T: Display + Serialize>(v: Option<T>) -> String {
         }
     }
 }
-fn ident_paths<T: FromStr + Display + Serialize + DeserializeOwned>(s: &str) -> (String, String) {
-    let p = ident_result(s.parse::<T>().ok());
-    let t = match toml_de::<T>(s) { Ok(v) => ident_result(v), Err(()) => "toml-text".into() };
-    (p, t)
-}
+fn ident_paths<T: FromStr + Display + Serialize + DeserializeOwned>(s: &str) -> Vec<String> { all_paths::<T>(s, s.parse::<T>().ok(), &ident_result::<T>) }
 
 fn version_result(v: Option<BuildpackVersion>) -> String {
     match v {
@@ -63,11 +117,7 @@ fn version_result(v: Option<BuildpackVersion>) -> String {
         }
     }
 }
-fn version_paths(s: &str) -> (String, String) {
-    let p = version_result(BuildpackVersion::try_from(s.to_string()).ok());
-    let t = match toml_de::<BuildpackVersion>(s) { Ok(v) => version_result(v), Err(()) => "toml-text".into() };
-    (p, t)
-}
+fn version_paths(s: &str) -> Vec<String> { all_paths::<BuildpackVersion>(s, BuildpackVersion::try_from(s.to_string()).ok(), &version_result) }
 fn api_result(v: Option<BuildpackApi>) -> String {
     match v {
         None => "err".into(),
@@ -78,13 +128,9 @@ fn api_result(v: Option<BuildpackApi>) -> String {
         }
     }
 }
-fn api_paths(s: &str) -> (String, String) {
-    let p = api_result(BuildpackApi::try_from(s.to_string()).ok());
-    let t = match toml_de::<BuildpackApi>(s) { Ok(v) => api_result(v), Err(()) => "toml-text".into() };
-    (p, t)
-}
+fn api_paths(s: &str) -> Vec<String> { all_paths::<BuildpackApi>(s, BuildpackApi::try_from(s.to_string()).ok(), &api_result) }
 
-fn paths(kind: &str, s: &str) -> Option<(String, String)> {
+fn paths(kind: &str, s: &str) -> Option<Vec<String>> {
     Some(match kind {
         "layer" => ident_paths::<LayerName>(s),
         "process" => ident_paths::<ProcessType>(s),
@@ -96,11 +142,12 @@ fn paths(kind: &str, s: &str) -> Option<(String, String)> {
     })
 }
 
-/// class of one string in a bulk case: `0` rejected by both paths, `1` accepted by both and displayed (serialised, re-parsed)
-/// as the input, `2` accepted by both and displayed differently but re-parsed as the same value, `x` anything else
+/// class of one string in a bulk case: `0` rejected by every path, `1` accepted by every path and displayed (serialised, re-parsed)
+/// as the input, `2` accepted by every path and displayed differently but re-parsed as the same value, `x` anything else
 fn class_of(kind: &str, s: &str) -> char {
-    let Some((p, t)) = paths(kind, s) else { return '?' };
-    if p != t { return 'x'; }
+    let Some(all) = paths(kind, s) else { return '?' };
+    if all.iter().any(|x| *x != all[0]) { return 'x'; }
+    let p = all[0].clone();
     if p == "err" { return '0'; }
     let parts: Vec<&str> = p.split(':').collect();
     let me = cps(s);
@@ -179,8 +226,8 @@ fn run_case(f: &[String]) -> String {
     match kind {
         "layer" | "process" | "bpid" | "execd" | "version" | "api" => {
             let (Some(s), "-") = (uncps(s, ","), extra) else { return "bad-input".into() };
-            let (p, t) = paths(kind, &s).unwrap();
-            format!("p={p};t={t}")
+            let all = paths(kind, &s).unwrap();
+            PATHS.iter().zip(all.iter()).map(|(n, r)| format!("{n}={r}")).collect::<Vec<_>>().join(";")
         }
         "mlayer" | "mprocess" | "mbpid" | "mexecd" => {
             if s != "-" { return "bad-input".into(); }
@@ -291,6 +338,67 @@ fn edits(word: &str) -> Vec<String> {
     out
 }
 
+/// every ASCII-case variant of a word (2^n for n letters; words with more than 10 letters: lower, upper, title, every
+/// single letter flipped, and 64 seeded random variants)
+fn case_variants(word: &str, seed: u64) -> Vec<String> {
+    let cs: Vec<char> = word.chars().collect();
+    let letters: Vec<usize> = (0..cs.len()).filter(|i| cs[*i].is_ascii_alphabetic()).collect();
+    let flip = |mask: u64| -> String {
+        let mut t = cs.clone();
+        for (b, i) in letters.iter().enumerate() { if mask >> b & 1 == 1 { t[*i] = if t[*i].is_ascii_lowercase() { t[*i].to_ascii_uppercase() } else { t[*i].to_ascii_lowercase() }; } }
+        t.into_iter().collect()
+    };
+    let n = letters.len();
+    let mut out: Vec<String> = vec![];
+    if n <= 10 { for m in 0..(1u64 << n) { out.push(flip(m)); } }
+    else {
+        out.push(flip(0)); out.push(flip((1u64 << n.min(63)) - 1)); out.push(flip(1));
+        for b in 0..n.min(63) { out.push(flip(1 << b)); }
+        let mut r = Rng::for_case(seed ^ 0xCA5E, word.len() as u64);
+        for _ in 0..64 { out.push(flip(r.next() & ((1u64 << n.min(63)) - 1))); }
+    }
+    out.sort();
+    out.dedup();
+    out
+}
+
+/// characters that look like, fold to, or normalise to an ASCII letter / digit / permitted punctuation mark
+const LOOKALIKE: &[(char, &[char])] = &[
+    ('a', &['\u{430}', '\u{ff41}', '\u{aa}']), ('b', &['\u{ff42}', '\u{184}']), ('c', &['\u{441}', '\u{ff43}']), ('d', &['\u{ff44}', '\u{501}']),
+    ('f', &['\u{ff46}']), ('g', &['\u{ff47}', '\u{261}']), ('h', &['\u{ff48}', '\u{4bb}']), ('i', &['\u{131}', '\u{130}', '\u{456}', '\u{ff49}', '\u{2170}']),
+    ('l', &['\u{ff4c}', '\u{217c}', '\u{4cf}']), ('m', &['\u{ff4d}', '\u{217f}']), ('n', &['\u{ff4e}', '\u{578}']), ('o', &['\u{43e}', '\u{ff4f}', '\u{3bf}', '\u{ba}']),
+    ('p', &['\u{440}', '\u{ff50}']), ('r', &['\u{ff52}']), ('s', &['\u{17f}', '\u{455}', '\u{ff53}']), ('t', &['\u{ff54}']), ('u', &['\u{ff55}', '\u{57d}']),
+    ('k', &['\u{212a}', '\u{ff4b}']), ('e', &['\u{435}', '\u{ff45}']),
+];
+/// invisible / decorating / line-ending characters put before, after and inside otherwise valid values
+const DECOR: &[&str] = &["\u{feff}", "\u{200b}", "\u{200d}", "\u{a0}", "\u{85}", "\u{2028}", "\u{2029}", "\u{202e}", "\u{301}", "\u{338}", "\u{fe0f}", "\r", "\r\n", "\n", "\t", " ", "\u{0}",
+    "\u{7f}", "\u{1b}", ".", "..", "%", "%20", "+", "\u{ff0e}", "\u{ff0d}", "\u{2010}", "\u{2212}", "\u{ff3f}", "\u{2044}", "\u{ff0f}", "\u{ff11}", "\u{661}", "\u{1d7cf}", "\u{b2}", "\u{2460}"];
+
+fn lookalikes(word: &str) -> Vec<String> {
+    let cs: Vec<char> = word.chars().collect();
+    let mut out = vec![];
+    for i in 0..cs.len() {
+        if let Some((_, subs)) = LOOKALIKE.iter().find(|(a, _)| *a == cs[i].to_ascii_lowercase()) {
+            for sub in subs.iter() { let mut t = cs.clone(); t[i] = *sub; out.push(t.iter().collect()); }
+        }
+    }
+    // the whole word in fullwidth letters, and with a combining mark after each position
+    out.push(cs.iter().map(|c| if c.is_ascii_lowercase() { char::from_u32(0xff41 + (*c as u32 - 'a' as u32)).unwrap() } else { *c }).collect());
+    for i in 1..=cs.len() { let mut t = cs.clone(); t.insert(i, '\u{301}'); out.push(t.iter().collect()); }
+    out
+}
+fn decorated(body: &str) -> Vec<String> {
+    let cs: Vec<char> = body.chars().collect();
+    let mut out = vec![];
+    for d in DECOR {
+        out.push(format!("{d}{body}"));
+        out.push(format!("{body}{d}"));
+        out.push(format!("{d}{body}{d}"));
+        if cs.len() >= 2 { let mid = cs.len() / 2; out.push(format!("{}{d}{}", cs[..mid].iter().collect::<String>(), cs[mid..].iter().collect::<String>())); }
+    }
+    out
+}
+
 const BOUNDARY: &[u64] = &[0, 1, 9, 10, 99, 4294967295, 4294967296, 9223372036854775807, 9223372036854775808, 18446744073709551614, 18446744073709551615];
 /// number-like components for version / API strings: canonical, leading zeros, signs, whitespace, overflow, empty
 const COMPONENTS: &[&str] = &["0", "1", "10", "007", "00", "01", "+1", "-1", "+0", " 1", "1 ", "", "1_0", "١", "1e3", "0x1",
@@ -342,6 +450,53 @@ fn generate(tier: &str, seed: u64, emit: &mut dyn FnMut(Case)) {
     edit_set.sort();
     edit_set.dedup();
     for k in &["layer", "process", "bpid", "execd"] { for s in &edit_set { emit(single(k, s, "reserved-edit")); } }
+    // 2b. every ASCII-case variant of every reserved word / regex-source word, alone and with every one-character prefix and
+    //     suffix over the alphabet, on all four identifier kinds (every entry path of `run_case`)
+    let mut case_set: Vec<String> = vec![];
+    let mut case_alone: Vec<String> = vec![];
+    for w in &words { for v in case_variants(w, seed) {
+        case_alone.push(v.clone());
+        case_set.push(v.clone());
+        for a in ALPHABET { case_set.push(format!("{a}{v}")); case_set.push(format!("{v}{a}")); }
+    } }
+    case_set.sort(); case_set.dedup();
+    case_alone.sort(); case_alone.dedup();
+    for k in &["layer", "process", "bpid", "execd"] { for s in &case_set { emit(single(k, s, "case-variant")); } }
+    // 2c. reserved words with one letter replaced by a look-alike / case-folding / compatibility character (long s, dotless i,
+    //     Kelvin sign, Cyrillic and fullwidth letters), with a combining mark, and reserved words and ordinary valid values
+    //     decorated (before / after / both / inside) with BOM, zero-width and bidi characters, NBSP, NEL, LS/PS, CR, CRLF, LF, TAB,
+    //     NUL, DEL, ESC, dots, percent-escapes, look-alike punctuation and non-ASCII digits
+    let mut special: Vec<String> = vec![];
+    for w in &words { special.extend(lookalikes(w)); special.extend(lookalikes(&w.to_uppercase())); special.extend(decorated(w)); }
+    for b in ["web", "PATH", "my-layer_1.x", "heroku/ruby", "a", "0", "Build", "io.buildpacks.stacks.jammy"] { special.extend(decorated(b)); }
+    special.sort(); special.dedup();
+    for k in &["layer", "process", "bpid", "execd"] { for s in &special { emit(single(k, s, "look-alike")); } }
+    // 2d. version / API strings decorated the same way (start, end, both, middle) and after / before each dot
+    let mut vdecor: Vec<(&str, String)> = vec![];
+    for b in ["1.2.3", "0.0.0", "10.20.30", "18446744073709551615.0.1"] {
+        for s in decorated(b) { vdecor.push(("version", s)); }
+        for d in DECOR.iter().chain(["v", "V", "=", "-", "_", "0", "00", "e", "E1", "x", "0x", "-rc1", "+build", "١"].iter()) {
+            let parts: Vec<&str> = b.split('.').collect();
+            for i in 0..3 { for front in [true, false] {
+                let mut p: Vec<String> = parts.iter().map(|x| x.to_string()).collect();
+                p[i] = if front { format!("{d}{}", p[i]) } else { format!("{}{d}", p[i]) };
+                vdecor.push(("version", p.join(".")));
+            } }
+        }
+    }
+    for b in ["0.10", "1", "0", "10.0", "0.18446744073709551615"] {
+        for s in decorated(b) { vdecor.push(("api", s)); }
+        for d in DECOR.iter().chain(["v", "V", "=", "-", "_", "0", "00", "e", "E1", "x", "0x", "-rc1", "+build", "١"].iter()) {
+            let parts: Vec<&str> = b.split('.').collect();
+            for i in 0..parts.len() { for front in [true, false] {
+                let mut p: Vec<String> = parts.iter().map(|x| x.to_string()).collect();
+                p[i] = if front { format!("{d}{}", p[i]) } else { format!("{}{d}", p[i]) };
+                vdecor.push(("api", p.join(".")));
+            } }
+        }
+    }
+    vdecor.sort(); vdecor.dedup();
+    for (k, s) in &vdecor { emit(single(k, s, "decorated")); }
     // 3. every code point 0..=0x17f (and some beyond) alone and inside `a?a`: finds any widened or narrowed class
     let mut points: Vec<char> = (0u32..=0x17f).filter_map(char::from_u32).collect();
     points.extend(['\u{7ff}', '\u{800}', '\u{d7ff}', '\u{e000}', '\u{ffff}', '\u{10000}', '\u{10ffff}', '\u{2028}', '\u{660}', '\u{ff11}']);
@@ -407,6 +562,11 @@ fn generate(tier: &str, seed: u64, emit: &mut dyn FnMut(Case)) {
             let mut lits: Vec<String> = short.clone();
             lits.extend(edit_set.iter().cloned());
             lits.extend(points.iter().map(|c| c.to_string()));
+            // every case variant of every reserved word alone and with the prefixes / suffixes a Z 0 . - _ / space, and the
+            // look-alike / decorated strings
+            lits.extend(case_alone.iter().cloned());
+            for v in &case_alone { for a in ['a', 'Z', '0', '.', '-', '_', '/', ' '] { lits.push(format!("{a}{v}")); lits.push(format!("{v}{a}")); } }
+            lits.extend(special.iter().cloned());
             lits.sort();
             lits.dedup();
             for (k, _) in MACROS { for chunk in lits.chunks(1500) {
